@@ -91,8 +91,12 @@ def spelled_pair_case(draw, pair_strategy, translucent_share=8, kinds=None):
     else:
         targ, tkind, _ = draw(gc.spell(text, kinds=kinds))
     barg, bkind, _ = draw(gc.spell(bg, allow_translucent=False))
-    return {"text": targ, "bg": barg, "large": large, "very": very, "mode": mode,
+    case = {"text": targ, "bg": barg, "large": large, "very": very, "mode": mode,
             "tkind": tkind, "bkind": bkind, "meta": meta}
+    w = draw(warm())
+    if w:
+        case["warm"] = w
+    return case
 
 
 def uniform_pairs():
@@ -107,7 +111,19 @@ def minimum_for(case):
     return ow.minimum(case.get("large", False), case.get("very", False))
 
 
+def warm():
+    """Optional earlier call on the SAME ColorPair object with other settings (None two times in three): results
+    must not depend on it (a per-object memo or a cache keyed on part of the arguments would make them)."""
+    return st.one_of(st.none(), st.none(), st.fixed_dictionaries({"mode": st.sampled_from([0, 1, 2]), "very": st.booleans()}))
+
+
 def call_make_readable(pair, case, **extra):
+    w = case.get("warm")
+    if w:
+        try:
+            pair.make_readable(mode=w["mode"], very_readable=w["very"])
+        except Exception as e:
+            raise Violation(exc_bucket(e), f"warm-up make_readable(mode={w['mode']}, very_readable={w['very']}) raised {e!r} for {describe(case)}")
     try:
         return pair.make_readable(mode=case["mode"], very_readable=case["very"], **extra)
     except Exception as e:
@@ -115,4 +131,5 @@ def call_make_readable(pair, case, **extra):
 
 
 def describe(case):
-    return f"text={gc.dec(case['text'])!r} bg={gc.dec(case['bg'])!r} large={case.get('large')} very={case.get('very')} mode={case.get('mode')}"
+    return (f"text={gc.dec(case['text'])!r} bg={gc.dec(case['bg'])!r} large={case.get('large')} very={case.get('very')} mode={case.get('mode')}"
+            + (f" after a call with {case['warm']} on the same object" if case.get("warm") else ""))
